@@ -3,6 +3,7 @@
 #include "/include/vcommon.h"
 
 string oid = "?";
+int act_ret = 1;
 object keep;
 mixed *keepa = ({ 0 });
 mapping keepm = ([ ]);
@@ -52,11 +53,13 @@ int move_or_destruct (object dest) {
 }
 
 int act (string arg) {
+  act_ret = 1;
   VL ("hb " + oid + " act " + OID (this_player ()));
   run ("act", 0);
   VL ("he " + oid + " act");
-  return 1;
+  return act_ret;
 }
+int x_ra (string verb) { return remove_action ("act", verb); }
 
 // present() asks every member of an inventory; an object answers to its own harness id
 int id (string s) {
